@@ -136,7 +136,9 @@ def run_case(ctx, g, rng):
             # a user subclass overriding the documented hook: scalar and bulk must still agree cell by cell
             S.counters["wl:build:hooked-subclass"] += 1
             return gen.hooked_subclass(api)([gen.mk_record(api, r) for r in recs], delimiter=d)
-        c, how = gen.build(api, recs, d, rng)
+        # (one bulk call in four works on the product of another operation - a rewired, remapped, chained or subset converter:
+        #  what the scalar methods answer there is what the bulk call must write; seed C16-V)
+        c, how = gen.build(api, recs, d, rng, "via-derivation" if rng.random() < 0.25 else None)
         S.counters[f"wl:build:{how}"] += 1
         return c
 
